@@ -1,0 +1,27 @@
+//go:build verif
+
+package schedulemanager
+
+// Verification-only accessors (build tag "verif").
+
+// VerifFireAll runs the job of every registered cron entry once, one after another,
+// and returns what each of them sent to the schedule channel.
+func (sm *scheduleManager) VerifFireAll() []string {
+	out := make([]string, 0)
+	for _, e := range sm.cron.Entries() {
+		done := make(chan struct{})
+		job := e.Job
+		go func() {
+			job.Run()
+			close(done)
+		}()
+		out = append(out, <-sm.ScheduleCh)
+		<-done
+	}
+	return out
+}
+
+// VerifCronEntryCount returns the number of entries registered in the embedded cron.
+func (sm *scheduleManager) VerifCronEntryCount() int {
+	return len(sm.cron.Entries())
+}
